@@ -204,6 +204,7 @@ type tmplCfg struct {
 	ap, tp      string
 	tags, voids []string
 	global      map[string]any
+	globalScope exp.Scope // when set: used instead of NewScope(global) (a scope built by the caller, e.g. with exp.Combine)
 }
 
 type tmplRun struct {
@@ -222,7 +223,11 @@ func newManager(cfg tmplCfg, files [][2]string) (m types.TemplateManager, loadEr
 		// the global scope may be SET more than once: the last one replaces the earlier ones entirely
 		mgr.SetGlobalScope(exp.NewScope(map[string]any{"g1": "stale-global", "stale": "stale", "len": "stale-len", "name": "stale-name", "zz": "stale-zz"}))
 	}
-	mgr.SetGlobalScope(exp.NewScope(cfg.global))
+	if cfg.globalScope != nil {
+		mgr.SetGlobalScope(cfg.globalScope)
+	} else {
+		mgr.SetGlobalScope(exp.NewScope(cfg.global))
+	}
 	if cfg.tags != nil {
 		mgr.SetTextTags(cfg.tags)
 	}
